@@ -22,7 +22,9 @@ THEOREMS = ["C03_excitation_formula", "C03_recombination_uses_next_charge", "C03
             "C03_donor_filter_spec", "C03_total_power_formula", "C03_total_power_uniform",
             "C03_radiation_function_total", "C03_brems_formula", "C03_brems_species_filter",
             "C03_brems_bin_average_partial", "C03_zero_when_nonpositive", "C03_nonneg",
-            "C03_thermalcx_nonneg", "C03_linear_in_density", "C03_history_independent"]
+            "C03_thermalcx_nonneg", "C03_linear_in_density", "C03_history_independent",
+            "C03_gq_refines_rule", "C03_gq_laws", "C03_brems_spectrum_nonneg", "C03_brems_vacuum_zero",
+            "C03_gaunt_branch_spec", "C03_emission_adds", "C03_rnd_bounds", "C03_cache_populates", "C03_brems_gaunt_cache"]
 
 GL_ORDER = 8
 CONST_ORDER = ["RECIP_2_PI", "RECIP_4_PI", "DEGREES_TO_RADIANS", "RADIANS_TO_DEGREES", "ATOMIC_MASS", "ELEMENTARY_CHARGE",
@@ -385,6 +387,33 @@ class Oracles:
         return "(mkConsts %s %s %s %s %s %s %s)" % tuple(qlit(v) for v in (self.e, self.c, self.h, self.me, self.eps0, self.pi, self.r4pi))
 
 
+_GQ_RULES = {}
+
+
+def gq_rule(order):
+    """roots and weights of the Gauss-Legendre rule of the given order, from the source of the code's own caches
+    (scipy.special.roots_legendre in GaussianQuadrature._build_cache)"""
+    if order not in _GQ_RULES:
+        from scipy.special import roots_legendre
+        x, w = roots_legendre(order)
+        _GQ_RULES[order] = ([float(v) for v in x], [float(v) for v in w])
+    return _GQ_RULES[order]
+
+
+def predict_order(impl, orc, case, a, b, rtol, dflt):
+    """GaussianQuadrature.evaluate in floats on the reference integrand: the order at which it stops"""
+    c, d = 0.5 * (a + b), 0.5 * (b - a)
+    old = math.inf
+    for order in range(dflt["min_order"], dflt["max_order"] + 1):
+        x, w = gq_rule(order)
+        new = d * sum(wk * brems_reference(impl, orc, case, c + d * xk) for xk, wk in zip(x, w))
+        err = abs(new - old)
+        old = new
+        if err < rtol * abs(new):
+            return order
+    return dflt["max_order"]
+
+
 def gl_rule():
     x, w = np.polynomial.legendre.leggauss(GL_ORDER)
     return [float(v) for v in x], [float(v) for v in w]
@@ -617,8 +646,9 @@ def run(ctx):
         "Species objects are unique per (element, charge) key (Composition is a dict), so `species != target` is key inequality",
         "the line shape hands the radiance it is given to the spectrum with unit wavelength integral (property C02); C03 observes the "
         "radiance argument of add_line and, in the search, the integral of a real GaussianLine over a +-40 nm window",
-        "the integrator and the Gaunt factor are oracles: theorems hold for every integrator / Gaunt function; that Gauss-Legendre "
-        "quadrature approximates the integral is not proved (C03_brems_bin_average_partial)",
+        "the integrator of the code (GaussianQuadrature.evaluate) is part of the model; its caches of roots and weights come from "
+        "scipy.special.roots_legendre at run time and are only checked to be Gauss-Legendre-like (weights >= 0, sum 2 within 2^-48, nodes in "
+        "[-1,1]); that a Gauss-Legendre rule approximates the integral is not proved (C03_brems_bin_average_partial)",
     ]
     ctx.rebuild()
     ctx.proofs("Properties.C03", THEOREMS, extra_modules=("Model.C03_Check",))
@@ -633,6 +663,8 @@ def run(ctx):
 
     # ---- (T) constants ------------------------------------------------------------------------------
     consts = impl.read_constants(REPO)
+    tables = impl.read_source_tables(REPO)
+    gq_defaults = impl.probe_gq_defaults()
     orc = Oracles(impl, consts)
     tie = ("Require Import Cherab.Common.Qx Cherab.Model.C03_Passive Cherab.Model.C03_Brems Cherab.Model.C03_Check.\n"
            "Open Scope Q_scope.\n"
@@ -640,20 +672,24 @@ def run(ctx):
            "Lemma consts_ok : consts_wf gen_consts = true.\nProof. vm_compute. reflexivity. Qed.\n"
            "Definition gen_all : list Q := %s.\n"
            "Lemma consts_all_ok : consts_all_wf gen_all = true.\nProof. vm_compute. reflexivity. Qed.\n"
-           % (orc.coq_consts(), coq_ql([consts[n] for n in CONST_ORDER])))
+           "Lemma source_tables_ok : source_tables_wf %s %s %d%%nat %d%%nat %s = true.\nProof. vm_compute. reflexivity. Qed.\n"
+           % (orc.coq_consts(), coq_ql([consts[n] for n in CONST_ORDER]),
+              "[" + "; ".join(zlit(h) for h in tables["hyd"]) + "]%Z", qz(tables["euler_gamma"]),
+              gq_defaults["min_order"], gq_defaults["max_order"], qz(gq_defaults["rtol"])))
     tie_path = ctx.write_gen("Consts.v", tie)
     ok, out = coqc(tie_path)
     ctx.obligation("Gen tie: constants.pyx gives the CODATA 2018 values, RECIP_4_PI and M_PI of the model (consts_ok) and every "
-                   "other constant of the file its documented value (consts_all_ok)", "tie", ok, out)
+                   "other constant of the file its documented value (consts_all_ok); hydrogen-isotope loop, EULER_GAMMA and the default "
+                   "integrator parameters re-read from the sources / probed (source_tables_ok)", "tie", ok, out)
     consts_bad = not ok
 
     # ---- cases ----------------------------------------------------------------------------------------
-    n_line = 50 if quick else 900          # per kind and style
-    n_total = 60 if quick else 1000        # per style
-    n_bfn = 30 if quick else 500
-    n_brm = 20 if quick else 300
+    n_line = 42 if quick else 900          # per kind and style
+    n_total = 48 if quick else 1000        # per style
+    n_bfn = 24 if quick else 500
+    n_brm = 15 if quick else 300
     n_rfn = 15 if quick else 200
-    n_gnt = 40 if quick else 600
+    n_gnt = 30 if quick else 600
     # sequences: one model instance evaluated at SEQ_LEN points of one plasma (single-point kinds: sequences of one)
     seqs = []
     nseq = lambda n: -(-n // SEQ_LEN)
@@ -740,6 +776,7 @@ def run(ctx):
             cases.append(c)
             pre_obs.append(o)
 
+    ctx.log("implementation runs done: %d evaluations in %d sequences" % (len(cases), len(seqs)))
     glx, glw = gl_rule()
     texts, metas, observations = [], [], []
     search_fails = []
@@ -748,7 +785,7 @@ def run(ctx):
     names = {1: "excitation", 2: "recombination", 3: "thermal_cx", 4: "total_power", 5: "brems_function",
              6: "bremsstrahlung", 7: "radiation_function", 8: "gaunt_factor", 0: "call_site"}
     nontrivial = 0
-    n_gaunt, edge_cases, n_rebased = 0, [], 0
+    n_gaunt, edge_cases, n_rebased, gq_orders, n_nonconv = 0, [], 0, {}, 0
     n_probes, probe_fails = impl.second_order_probes()
     for f in probe_fails:
         search_fails.append(dict(f, case={"kind": 0, "probe": f["claim"]}, case_index=-1))
@@ -762,10 +799,10 @@ def run(ctx):
         if kind in (1, 2, 3):
             obs = pre_obs[ci]
             e, c, t = case["line"]
-            texts.append("check_line %d %s %s (mkLine %s %s %s) %s %s %s %s %s %s %s %s" % (
-                kind, "true" if obs["fresh"] else "false", coq_cfg(case["cfg"]), zlit(e), zlit(c), zlit(t), qz(case["ne"]), qz(case["te"]), coq_comp(impl, case["comp"]),
+            texts.append("(%s, (fun fr : bool => check_line %d fr %s (mkLine %s %s %s) %s %s %s %s %s %s %s %s), line_populate_ok %d (mkLine %s %s %s) %s)" % (
+                "true" if obs["notified"][0] else "false", kind, coq_cfg(case["cfg"]), zlit(e), zlit(c), zlit(t), qz(case["ne"]), qz(case["te"]), coq_comp(impl, case["comp"]),
                 coq_out(obs["out"]), coq_zll(obs["calls"]), coq_qll(obs["evals"]), "[" + "; ".join(zlit(v) for v in obs["target"]) + "]%Z",
-                coq_zll(obs["tsamp"])))
+                coq_zll(obs["tsamp"]), kind, zlit(e), zlit(c), zlit(t), coq_comp(impl, case["comp"])))
             okey = obs["out"][0] if isinstance(obs["out"], tuple) else obs["out"]
             fs = search_line(impl, case, obs)
             if obs["fresh"] and obs["target"]:
@@ -785,11 +822,12 @@ def run(ctx):
                 dist["negative_coefficients"] += 1
         elif kind == 4:
             obs = pre_obs[ci]
-            texts.append("check_total %s %s %s %s %s %s %s %s %s %s %s %d%%nat %s %s %s %s" % (
-                "true" if obs["fresh"] else "false", coq_cfg(case["cfg"]), "[" + "; ".join(zlit(h) for h in impl.HYD) + "]%Z", zlit(case["elem"]), zlit(case["charge"]),
+            texts.append("(%s, (fun fr : bool => check_total fr %s %s %s %s %s %s %s %s %s %s %d%%nat %s %s %s %s), total_populate_ok %s %s %s %s)" % (
+                "true" if obs["notified"][0] else "false", coq_cfg(case["cfg"]), "[" + "; ".join(zlit(h) for h in tables["hyd"]) + "]%Z", zlit(case["elem"]), zlit(case["charge"]),
                 zlit(impl.znum(case["elem"])), qz(case["ne"]), qz(case["te"]), coq_comp(impl, case["comp"]),
                 qz(case["minw"]), qz(case["maxw"]), case["bins"], coq_out(obs["out"]), coq_ql(obs["samples"]),
-                coq_zll(obs["calls"]), coq_qll(obs["evals"])))
+                coq_zll(obs["calls"]), coq_qll(obs["evals"]),
+                zlit(case["elem"]), zlit(case["charge"]), zlit(impl.znum(case["elem"])), coq_comp(impl, case["comp"])))
             okey = obs["out"][0] if isinstance(obs["out"], tuple) else obs["out"]
             fs = search_total(impl, case, obs)
             if len(obs["evals"]) >= 2:
@@ -823,29 +861,51 @@ def run(ctx):
             obs = pre_obs[ci]
             sq = orc.sqrt_tab(case["te"])
             ex = []
-            if case["ne"] > 0 and case["te"] > 0:
+            rtol = 1e-13 if case["tight"] else gq_defaults["rtol"]
+            live = any(ch > 0 and n > 0 for (_, ch, n, _) in case["comp"])
+            kmax = gq_defaults["min_order"]
+            if case["ne"] > 0 and case["te"] > 0 and live:
+                # the order at which the code's loop stops, predicted with the reference integrand (floats); the caches handed to
+                # Coq end two orders above it (never beyond the code's max_order)
+                dlt = (case["maxw"] - case["minw"]) / case["bins"]
+                for i in range(case["bins"]):
+                    kmax = max(kmax, predict_order(impl, orc, case, case["minw"] + i * dlt, case["minw"] + (i + 1) * dlt, rtol, gq_defaults))
+                if kmax >= gq_defaults["max_order"]:
+                    # the loop never meets its stopping test (typically every function value underflows to exactly 0, and
+                    # 0 < rtol * 0 is false): the code runs all orders up to max_order.  The caches handed to Coq are
+                    # truncated after three orders; the comparison then still decides whenever the rules agree (they all give
+                    # 0 in the underflow case); counted in the evidence
+                    kmax = gq_defaults["min_order"]
+                    n_nonconv += 1
+                kmax = min(gq_defaults["max_order"], kmax + 2)
                 delta = (Fraction(case["maxw"]) - Fraction(case["minw"])) / case["bins"]
                 lower = Fraction(case["minw"])
                 for i in range(case["bins"]):
                     upper = Fraction(case["minw"]) + delta * (i + 1)
-                    hh, mm = (upper - lower) / 2, (lower + upper) / 2
-                    for xk in glx:
-                        ex.append(orc.exp_entry(case["te"], mm + hh * Fraction(xk)))
+                    dd, cc = Fraction(1, 2) * (upper - lower), Fraction(1, 2) * (lower + upper)
+                    for order in range(gq_defaults["min_order"], kmax + 1):
+                        for xk in gq_rule(order)[0]:
+                            ex.append(orc.exp_entry(case["te"], cc + dd * Fraction(xk)))
                     lower = upper
+            roots, weights = [], []
+            for order in range(gq_defaults["min_order"], kmax + 1):
+                roots += gq_rule(order)[0]
+                weights += gq_rule(order)[1]
+            gq_orders[kmax] = gq_orders.get(kmax, 0) + 1
             g = case["gaunt"]
             mx = max([abs(v) for v in obs["samples"]] + [0.0])
             prec = 80 - (math.frexp(mx)[1] if mx > 0 else 0)
-            texts.append("check_brems (pow2 (%d)) %s gen_consts %s %s %s %s %s %s %s %s %s %s %s %s %s %d%%nat %s %s" % (
-                -32 if case["tight"] else -15, zlit(prec), coq_tab(sq), coq_tab(ex), qz(g[0]), qz(g[1]), qz(g[2]), qz(g[3]), coq_ql(glx), coq_ql(glw),
+            texts.append("(%s%%Z, (fun pc : bool => Bool.eqb pc %s && check_brems (pow2 (-40)) %s gen_consts %s %s %s %s %s %s %s %s %d%%nat %d%%nat %s %s %s %s %s %s %d%%nat %s %s))" % (
+                zlit(obs["opcode"]), "true" if obs["calls"] == [[7]] else "false", zlit(prec), coq_tab(sq), coq_tab(ex), qz(g[0]), qz(g[1]), qz(g[2]), qz(g[3]), coq_ql(roots), coq_ql(weights),
+                gq_defaults["min_order"], kmax, qz(rtol),
                 qz(case["ne"]), qz(case["te"]), coq_comp(impl, case["comp"]), qz(case["minw"]), qz(case["maxw"]), case["bins"],
                 coq_ql(obs["samples"]), coq_ql(obs["gaunt_z"])))
             okey = "bins" if (case["ne"] > 0 and case["te"] > 0) else "Skip"
             fs = search_brems(impl, orc, case, obs)
             if obs["gaunt_te"] not in ([], [case["te"]]):
                 fs.append({"claim": "the Gaunt factor is evaluated at the electron temperature", "observed": obs["gaunt_te"]})
-            if obs["calls"] != ([[7]] if (obs["fresh"] and case["via_provider"]) else []):
-                fs.append({"claim": "the Gaunt factor is taken from the provider (free_free_gaunt_factor) when the cache is populated, "
-                                    "and only then", "observed": obs["calls"]})
+            if obs["calls"] not in ([], [[7]]):
+                fs.append({"claim": "the provider is asked for the Gaunt factor at most once per evaluation", "observed": obs["calls"]})
             if len(obs["gaunt_z"]) >= 2:
                 nontrivial += 1
         elif kind == 8:
@@ -915,21 +975,40 @@ def run(ctx):
         for f in search_line(impl, case, obs):
             search_fails.append(dict(f, case=case, case_index=-1))
 
+    ctx.log("case texts and search done")
     # ---- run the model inside Coq -----------------------------------------------------------------------
+    # units: the evaluations of one sequence stay together; their populate / provider-call decisions are made by the
+    # cache state machine of the model (run_steps / run_brems_steps) inside Coq
+    units, i = [], 0
+    while i < len(cases):
+        j = i + 1
+        while j < len(cases) and cases[j].get("seq_step", 0) > 0:
+            j += 1
+        kind = cases[i]["kind"]
+        ids = list(range(i, j))
+        body = ";\n   ".join(texts[k] for k in ids)
+        if kind in (1, 2, 3, 4):
+            units.append(("run_steps false [\n   %s]" % body, ids))
+        elif kind == 6:
+            units.append(("run_brems_steps (false, %s) [\n   %s]" % ("true" if pre_obs[i]["user_at_start"] else "false", body), ids))
+        else:
+            units.append(("[%s]" % body, ids))
+        i = j
     shard_size = 60
-    nshards = max(8, -(-len(texts) // shard_size))
+    nshards = max(16, -(-len(texts) // shard_size))
     files = []
     shard_of = {}
     for si in range(nshards):
-        ids = list(range(si, len(texts), nshards))      # round-robin: the slower bremsstrahlung cases are spread evenly
+        mine = units[si::nshards]          # round-robin: the slower bremsstrahlung sequences are spread evenly
+        ids = [k for _, u in mine for k in u]
         if not ids:
             continue
-        for i in ids:
-            shard_of[i] = si
-        txt = ("Require Import Cherab.Common.Qx Cherab.Model.C03_Passive Cherab.Model.C03_Brems Cherab.Model.C03_Check.\n"
+        for k in ids:
+            shard_of[k] = si
+        txt = ("Require Import Cherab.Common.Qx Cherab.Model.C03_Passive Cherab.Model.C03_Brems Cherab.Model.C03_Cache Cherab.Model.C03_Check.\n"
                "Open Scope Q_scope.\nDefinition gen_consts : consts := %s.\n"
-               "Definition results : list bool := [\n  %s].\nEval vm_compute in (failing results).\n"
-               % (orc.coq_consts(), ";\n  ".join(texts[i] for i in ids)))
+               "Definition results : list bool :=\n  %s.\nEval vm_compute in (failing results).\n"
+               % (orc.coq_consts(), "\n  ++ ".join("(%s)" % t for t, _ in mine)))
         files.append((ctx.write_gen("cases_%03d.v" % si, txt), ids))
     res = coqc_many([f for f, _ in files], timeout=1200)
     diff_cases = []
@@ -979,16 +1058,24 @@ def run(ctx):
         "distribution": dict(dist, styles="half dyadic (products exact in double), half realistic magnitudes (1e15..1e21 m^-3, 0.1..1e4 eV)",
                              sign_probes=n_neg, corpus_cases=len(corpus), mutation_ops_between_points=op_counts,
                              attachment_routes=route_counts, fresh_object_comparisons=n_fresh_cmp,
-                             second_order_probes=n_probes, gaunt_factor_cases=n_gaunt,
+                             second_order_probes=n_probes, gaunt_factor_cases=n_gaunt, gq_cache_last_order=gq_orders, gq_nonconvergent_cases_truncated=n_nonconv,
                              second_calls_into_prefilled_spectrum=n_rebased, gaunt_interpolator_edge_cases=len(edge_cases),
                              sequences=dict(transitions, length=SEQ_LEN,
                              rule="line, total-power and bremsstrahlung cases are consecutive points of one plasma evaluated on ONE "
                                   "model instance; every evaluation is compared with the model's value for that point alone")),
         "tolerance": {"line_and_total_radiance": "2^-44 * sum of |terms|", "accessor_calls/evaluate_args/lineshape_target/error_kind": "exact",
-                      "total_power_bins": "all bins bit-identical", "brems_integrand": "2^-40", "brems_bins": "2^-15 (default integrator, "
-                      "rtol 1e-5) / 2^-32 (rtol 1e-13) against %d-point Gauss-Legendre of the model evaluated in Coq" % GL_ORDER,
+                      "total_power_bins": "all bins bit-identical", "brems_integrand": "2^-40",
+                      "brems_bins": "2^-40 for both the default (rtol 1e-5) and the rtol 1e-13 integrator, against the MODEL of "
+                                    "GaussianQuadrature.evaluate run in Coq on scipy's roots_legendre caches (same adaptive loop, same stopping "
+                                    "order); function values rounded down to 2^-P, P 80 bits below the sample magnitude (C03_rnd_bounds)",
+                      "populate_and_provider_call_decisions": "exact, made by the cache state machine of the model inside Coq",
+                      "gaunt_factor": "zero / classical / interpolated branches exact, Born 2^-44; u and gamma2 doubles within 2^-50 of the exact values",
+                      "constants": "2^-50 (HC_EV_NM 2^-26, BOHR_MAGNETON 2^-29, see partial); RECIP_4_PI, M_PI, EULER_GAMMA, hydrogen-isotope "
+                                   "loop, default integrator parameters: exact",
+                      "absolute_floor": "2^-800 in every value comparison (subnormal inputs)",
                       "radiation_function": "2^-48", "search": "1e-12 (formulas), 1e-9 (GaussianLine integral), 3e-5 / 1e-9 (bremsstrahlung bins)"},
-        "partial": ["integrator and Gaunt factor are oracles (C03_brems_bin_average_partial: exact-integrator hypothesis)",
+        "partial": ["C03_brems_bin_average_partial: the integral statement assumes an exact integrator; the code's integrator is modelled and tied "
+                    "(C03_gq_refines_rule, C03_gq_laws) but its quadrature error bound is an analytic fact that is not proved",
                     "InterpolatedFreeFreeGauntFactor (gaunt.pyx): only its branch structure is modelled (Model/C03_Gaunt.v, tie only, no "
                     "theorem); log and the 2-D interpolator are oracles (libm, a twin raysect interpolator)",
                     "line shapes are an oracle with unit integral (property C02)",
